@@ -201,6 +201,25 @@ def check_run(case, res, counters):
                 add('C16:bystander-state-after-failure@%s' % spec['op'],
                     'node %s (%s), none of whose own functions failed: inputs %s, outputs %s, reference %s'
                     % (nid, spec['op'], [syncrun._val(r[1]) for r in ins[nid]][:20], real[:30], exp[:30]))
+    # (2c) zip_latest hands on every element of its lossless input exactly once and in order, also when the delivery of one
+    # of several waiting elements failed: the others -- whose own emits had returned normally long before -- are still
+    # waiting inside the node afterwards (and come out with the next arrival), they do not vanish with the failure
+    if any(e[2] == 'FAULT' for e in log.ev):
+        for nid, spec in specs.items():
+            if spec['op'] != 'zip_latest' or not ins.get(nid):
+                continue
+            ups = list(spec.get('ups', []))
+            arrived = [syncrun._val(x) for who, x, md, failed in ins[nid] if who == ups[0]]
+            handed = [syncrun._val(x)[0] for x, _ in outs.get(nid, [])]
+            counters['zip_latest_waiting_elements_checks'] = counters.get('zip_latest_waiting_elements_checks', 0) + 1
+            still = getattr(res.nodes.get(nid), 'lossless_buffer', None)
+            if handed != arrived[:len(handed)]:
+                add('C16:bystander-waiting-elements-lost-or-reordered@zip_latest',
+                    'node %s: lossless input delivered %s, handed on (first components) %s' % (nid, arrived[:30], handed[:30]))
+            elif still is not None and len(handed) + len(still) != len(arrived):
+                add('C16:bystander-waiting-elements-lost-or-reordered@zip_latest',
+                    'node %s: lossless input delivered %d elements %s, %d were handed on and %d are still waiting in the node: '
+                    'the others vanished with the failure of a consumer' % (nid, len(arrived), arrived[:30], len(handed), len(still)))
     # (3) failed elements are never signalled
     failed_dicts = {}           # id(dict) -> all failures concerned metadata-less data (inherited attribution)
     for e in log.ev:
